@@ -24,7 +24,7 @@ PRE_STUB = '''
 /* the same text is used where the contract is enforced (this group) and where it replaces a call */
 #define IT_PRE(it, count) (__CPROVER_r_ok(it, sizeof(*(it))) && g_n <= MAXN && OFF((it)->data) + (count) <= g_n \\
    && __CPROVER_r_ok((it)->data, count) && (it)->line >= 1 && (it)->column >= 1 \\
-   && (it)->byte < ((size_t)1<<62) && (it)->line < ((size_t)1<<62) && (it)->column < ((size_t)1<<62))
+   && (it)->byte < ((size_t)1<<63) && (it)->line < ((size_t)1<<63) && (it)->column < ((size_t)1<<63))
 #define ADVANCED(it, count) (__CPROVER_same_object((it)->data, OLD((it)->data)) && OFF((it)->data) == OFF(OLD((it)->data)) + (count) \\
    && (it)->byte == OLD((it)->byte) + (count))
 '''
@@ -49,7 +49,7 @@ int main(void)
   __CPROVER_assume(k <= g_n && count <= g_n - k %s);
   struct S_inputerator_T it;
   it.data = buf + k;
-  __CPROVER_assume(it.line >= 1 && it.column >= 1 && it.byte < ((size_t)1<<62) && it.line < ((size_t)1<<62) && it.column < ((size_t)1<<62));
+  __CPROVER_assume(it.line >= 1 && it.column >= 1 && it.byte < ((size_t)1<<63) && it.line < ((size_t)1<<63) && it.column < ((size_t)1<<63));
   w_n = g_n; w_k = k; w_count = count; w_ch = ch; w_line = it.line; w_col = it.column;
   for (int i = 0; i < 8; ++i) if (k + i < g_n) w_b[i] = (unsigned char)buf[k + i];
   g_i = 0; g_line = it.line; g_col = it.column; g_data = it.data;
